@@ -83,7 +83,15 @@ def c_get(w, e, args, suffix, variant):
     return []
 
 
-CONTRACTS = [(r"slice::<impl \[.*\]>::get(::<.*>)?$", c_get), (r"common::check_buffer_boundaries$", c_cbb), (r"RawAttribute<'\w+> as stun_rs::Decode<'\w+>>::decode$", c_raw_attr),
+def c_header(w, e, args, suffix, variant):
+    """MessageHeader::decode(b) = Ok((_, n)) => n == 20 <= len(b)   (R2.10 checks the returned size on the accepting path)"""
+    if suffix == "" and variant == "Ok":
+        n = w.L.lin(((C.short(e[1]),) + tuple(args), ".ok.1"))
+        return [LP.add(n, {1: -20}), LP.add({1: 20}, n, -1), LP.add(w.L.len_lin(args[0]), {1: -20})]
+    return []
+
+
+CONTRACTS = [(r"MessageHeader<'\w+> as stun_rs::Decode<'\w+>>::decode$", c_header), (r"slice::<impl \[.*\]>::get(::<.*>)?$", c_get), (r"common::check_buffer_boundaries$", c_cbb), (r"RawAttribute<'\w+> as stun_rs::Decode<'\w+>>::decode$", c_raw_attr),
              (r"RawMessage<'\w+> as stun_rs::Decode<'\w+>>::decode$", c_raw_msg)]
 
 
